@@ -201,14 +201,25 @@ def oracle_ext(native_exe, cell, pbc, cut, fpos):
     return msgs, out
 
 
-def oracle_cl(native_exe, cut, q, pts):
-    out = native(native_exe, ["cl", cut] + list(q) + [len(pts)] + [v for p in pts for v in p])
+def oracle_cl(native_exe, cut, q, pts, exact=None):
+    """exact: (cut, q, pts) as Fractions when every input is exactly representable as a double - the boundary case
+    distance == cutoff is then decided exactly; otherwise a relative margin of 1e-12 is left around the cutoff"""
+    out = native(native_exe, ["cl", repr(float(cut))] + [repr(float(v)) for v in q] + [len(pts)] + [repr(float(v)) for p in pts for v in p])
     if "exception" in out:
         return [f"CellList raised: {out['exception']}"], out
-    pts, q = np.array(pts, float), np.array(q, float)
-    d = np.linalg.norm(q - pts, axis=1)
     got = [int(i) for i in out["indices"]]
     msgs = []
+    if exact is not None and all(F(float(v)) == v for v in [exact[0]] + list(exact[1]) + [x for p in exact[2] for x in p]):
+        ec, eq, ep = exact
+        for l in range(len(ep)):
+            d2 = sum((a - b) ** 2 for a, b in zip(eq, ep[l]))
+            c = got.count(l)
+            if d2 <= ec * ec and c != 1:
+                msgs.append(f"point {l} at squared distance {float(d2)} <= cutoff^2 {float(ec * ec)} (exact arithmetic) returned {c} times")
+            if d2 > ec * ec and c != 0:
+                msgs.append(f"point {l} at squared distance {float(d2)} > cutoff^2 {float(ec * ec)} (exact arithmetic) was returned")
+    pts, q = np.array(pts, float), np.array(q, float)
+    d = np.linalg.norm(q - pts, axis=1)
     for l in range(len(pts)):
         c = got.count(l)
         if d[l] <= cut * (1 - 1e-12) and c != 1:
